@@ -613,6 +613,57 @@ pub fn wait_retry(d: &dyn Drv, timeout: Duration) -> Result<(), String> {
     }
 }
 
+/// Which of the three orders of builder calls a configuration is built with (every order must give
+/// the same cache: the setters that change a type parameter re-assemble the builder and could drop
+/// a field set earlier).
+pub fn builder_order(cfg: &Cfg) -> u64 {
+    (cfg.num_counters as u64 + cfg.buffer_size as u64 * 3 + cfg.buffer_items as u64 * 5 + (cfg.max_cost as u64 & 0xffff) + cfg.metrics as u64 + cfg.ignore_internal as u64 * 2) % 3
+}
+
+macro_rules! builder_chain {
+    ($B:ident, $cfg:expr, $kb:expr) => {{
+        let cfg = $cfg;
+        let cleanup = cfg.cleanup.unwrap_or(std::time::Duration::from_secs(2));
+        match builder_order(cfg) {
+            // type-changing setters first, scalars afterwards
+            0 => {
+                let mut b = $B::new_with_key_builder(cfg.num_counters, cfg.max_cost, $kb)
+                    .set_coster(Cst)
+                    .set_update_validator(Vld)
+                    .set_callback(Cb)
+                    .set_buffer_size(cfg.buffer_size)
+                    .set_buffer_items(cfg.buffer_items)
+                    .set_metrics(cfg.metrics)
+                    .set_ignore_internal_cost(cfg.ignore_internal);
+                if cfg.cleanup.is_some() {
+                    b = b.set_cleanup_duration(cleanup);
+                }
+                b
+            }
+            // scalars first (on the default builder), then every type-changing setter
+            1 => {
+                let mut b = $B::<u64, Tracked>::new(cfg.num_counters, cfg.max_cost)
+                    .set_ignore_internal_cost(cfg.ignore_internal)
+                    .set_metrics(cfg.metrics)
+                    .set_buffer_items(cfg.buffer_items)
+                    .set_buffer_size(cfg.buffer_size);
+                if cfg.cleanup.is_some() {
+                    b = b.set_cleanup_duration(cleanup);
+                }
+                b.set_key_builder($kb).set_callback(Cb).set_update_validator(Vld).set_coster(Cst)
+            }
+            // interleaved, sizes given through their setters
+            _ => {
+                let mut b = $B::new_with_key_builder(7, 7, $kb).set_buffer_items(cfg.buffer_items).set_coster(Cst).set_metrics(cfg.metrics).set_num_counters(cfg.num_counters);
+                if cfg.cleanup.is_some() {
+                    b = b.set_cleanup_duration(cleanup);
+                }
+                b.set_callback(Cb).set_buffer_size(cfg.buffer_size).set_max_cost(cfg.max_cost).set_update_validator(Vld).set_ignore_internal_cost(cfg.ignore_internal)
+            }
+        }
+    }};
+}
+
 pub fn build(flavor: Flavor, cfg: &Cfg) -> Result<Arc<dyn Drv>, String> {
     if cfg.manual_ticker {
         stretto::verif::ticker::arm_manual();
@@ -620,31 +671,11 @@ pub fn build(flavor: Flavor, cfg: &Cfg) -> Result<Arc<dyn Drv>, String> {
     let kb = Kb { collide: cfg.collide, zero_even: cfg.collide_zero_even };
     match flavor {
         Flavor::Sync => {
-            let mut b = CacheBuilder::new_with_key_builder(cfg.num_counters, cfg.max_cost, kb)
-                .set_coster(Cst)
-                .set_update_validator(Vld)
-                .set_callback(Cb)
-                .set_buffer_size(cfg.buffer_size)
-                .set_buffer_items(cfg.buffer_items)
-                .set_metrics(cfg.metrics)
-                .set_ignore_internal_cost(cfg.ignore_internal);
-            if let Some(d) = cfg.cleanup {
-                b = b.set_cleanup_duration(d);
-            }
+            let b = builder_chain!(CacheBuilder, cfg, kb);
             b.finalize().map(|c| Arc::new(SyncDrv(c)) as Arc<dyn Drv>).map_err(err)
         }
         Flavor::Async(e) => {
-            let mut b = AsyncCacheBuilder::new_with_key_builder(cfg.num_counters, cfg.max_cost, kb)
-                .set_coster(Cst)
-                .set_update_validator(Vld)
-                .set_callback(Cb)
-                .set_buffer_size(cfg.buffer_size)
-                .set_buffer_items(cfg.buffer_items)
-                .set_metrics(cfg.metrics)
-                .set_ignore_internal_cost(cfg.ignore_internal);
-            if let Some(d) = cfg.cleanup {
-                b = b.set_cleanup_duration(d);
-            }
+            let b = builder_chain!(AsyncCacheBuilder, cfg, kb);
             let r = match e {
                 Exec::TokioMt => b.finalize(|fut| {
                     tokio_mt().spawn(probed(fut));
